@@ -69,7 +69,7 @@ func JoinRun(m *MultiBucket, writers, opsEach, keys int, r *rng.R) (JoinResult, 
 				default:
 				}
 				key := fmt.Sprintf("k%d", wr.Intn(keys))
-				_, cas, ok, _ := writerOp(c, wr, key, fmt.Sprintf("w%d.%d", wi, i), last)
+				_, cas, ok, _ := writerOp(c, wr, key, fmt.Sprintf("w%d.%d", wi, i), last, false)
 				if ok {
 					acked.Add(1)
 					if cas != 0 {
@@ -195,7 +195,7 @@ func CheckpointRun(m *MultiBucket, writers, opsEach, keys, restarts int, r *rng.
 			last := map[string]uint64{}
 			for i := 0; i < opsEach; i++ {
 				key := fmt.Sprintf("k%d", wr.Intn(keys))
-				_, cas, ok, _ := writerOp(c, wr, key, fmt.Sprintf("w%d.%d", wi, i), last)
+				_, cas, ok, _ := writerOp(c, wr, key, fmt.Sprintf("w%d.%d", wi, i), last, false)
 				if ok {
 					acked.Add(1)
 					if cas != 0 {
